@@ -38,6 +38,7 @@ Definition e_undef_reference : Z := 19.        (* ErrUndefinedReference *)
 Definition e_dup_name : Z := 20.               (* ErrDuplicateGroupName *)
 Definition e_range : Z := 21.                  (* ErrCaptureGroupOutOfRange *)
 Definition e_missing_repeat_arg : Z := 22.     (* ErrMissingRepeatArgument *)
+Definition e_unrecognized_escape : Z := 23.    (* ErrUnrecognizedEscape *)
 
 (* ---- strconv.Itoa ---- *)
 Fixpoint uint_digits (u : Decimal.uint) : list Z :=
@@ -365,6 +366,8 @@ Definition mstep (mco ecma : bool) (t : ptree) (st : mstate) (tok : gtok) : res 
         else if is_slot t n then Ok (st, IRef n)
         else if angled then Err e_undef_backref
         else if (n <=? 9) && negb ecma then Err e_undef_backref
+        else if negb ecma && (match itoa n with d :: _ => 56 <=? d | [] => false end)
+             then Err e_unrecognized_escape                        (* scanCharEscape: "\8", "\9" *)
         else Ok (st, INone)                                        (* octal / literal escape *)
     | TBackName s =>                                               (* 1440-1456 *)
         if ecma && no_names t then Ok (st, INone)
